@@ -331,7 +331,7 @@ def run_texts(ctx, specs, label, with_edits=True):
         infos.append(info)
     ctx.log(f'{label}: observed {len(specs)} texts in {time.time() - t0:.1f}s; '
             f'{sum(len(t) for t in terms) // 1024} KiB of terms')
-    verdicts = ctx.run_cases(label, IMPORTS, 'case', terms, 'verdict', shard=25, prelude=instr().prelude())
+    verdicts = ctx.run_cases(label, IMPORTS, 'case', terms, 'verdict', shard=15, prelude=instr().prelude())
     stats = {'ok': 0, 'violation': 0, 'broken': 0}
     for spec, tags, info in zip(specs, verdicts, infos):
         stats[classify(ctx, spec, tags, info)] += 1
@@ -400,7 +400,9 @@ def step_term(st, allowed):
     return (f"(mkMStep {ct.lst([enc(a) for a in allowed])} {'None' if after is None else '(Some ' + srecs(after) + ')'} "
             + ct.lst([call_term(c) for c in calls]) + ' ' + ('[]' if after is None else nonstmts(after)) + ' '
             + ct.lst([us_term(u) for u in st['updates']]) + ' ' + sizes_in + ' ' + ins + ' ' + ct.boolean(st.get('reread', True))
-            + ' ' + ct.lst([abbr_term(a) for a in st.get('abbr', [])]) + ')')
+            + ' ' + ct.lst([abbr_term(a) for a in st.get('abbr', [])]) + ' '
+            + ct.lst([f'{i}%positive' for i in st.get('ids0', [])]) + ' ' + ct.lst([f'{i}%positive' for i in st.get('ids1', [])]) + ' '
+            + ct.lst([enc(c) for c in st.get('comps', [])]) + ')')
 
 
 def mcase_term(spec, out):
@@ -408,11 +410,13 @@ def mcase_term(spec, out):
             + nonstmts(out['before']) + '\n '
             + step_term(out['us'], []) + '\n '
             + ct.lst([step_term(e, e['allowed']) for e in out['edits']]) + '\n '
-            + ct.lst([step_term(e, e['allowed']) for e in out.get('history', [])]) + ')')
+            + ct.lst([step_term(e, e['allowed']) for e in out.get('history', [])]) + '\n '
+            + ct.lst([f'({i}%positive, {enc(n)}, {enc(t)})' for i, n, t in out.get('objs', [])]) + ')')
 
 
 M_ORACLE = {14: TAGS[14], 15: TAGS[15], 16: TAGS[16], 18: 'model.code differs from the text right after reading',
-            22: 're-reading the code after successive edits of a code record does not give the in-memory statements'}
+            22: 're-reading the code after successive edits of a code record does not give the in-memory statements',
+            28: 'records of a kind outside touched_kinds(changed components) changed'}
 
 
 def open_finding(ctx, fid):
@@ -436,7 +440,7 @@ def classify_model(ctx, spec, out, tags, report=True):
     for k in range(nsteps):
         ts = {t - 1000 * k for t in tags if 1000 * k <= t < 1000 * (k + 1)}
         label = steps[k]['name']
-        corr = sorted(ts & {7, 10, 13, 21, 25})
+        corr = sorted(ts & {7, 10, 13, 21, 25, 26, 27})
         status = 'ok'
         fail = None
         if 18 in ts:
@@ -449,6 +453,8 @@ def classify_model(ctx, spec, out, tags, report=True):
             fail = 16
         elif 22 in ts:
             fail = 22
+        elif 28 in ts:
+            fail = 28
         if fail is not None:
             # which open findings explain it: the exported real calls show the mechanism (tags 212..215), and the
             # difference must vanish when exactly that mechanism is discounted (tags 17, 19, 20)
@@ -508,7 +514,7 @@ def run_model_specs(ctx, specs, label, report=True):
             raise RuntimeError('oracle worker failed: ' + o['harness_error'])
     kept = [(s, o) for s, o in zip(specs, outs) if o.get('read_ok')]
     terms = [mcase_term(s, o) for s, o in kept]
-    verdicts = ctx.run_cases(label, IMPORTS, 'mcase', terms, 'mverdict', shard=12,
+    verdicts = ctx.run_cases(label, IMPORTS, 'mcase', terms, 'mverdict', shard=5,
                              prelude='From Coq Require Import String.\nLocal Open Scope N_scope.\n') if terms else []
     statuses = [classify_model(ctx, s, o, v, report) for (s, o), v in zip(kept, verdicts)]
     return outs, kept, verdicts, statuses
@@ -588,7 +594,7 @@ def run(ctx):
     specs = [s for s in reg if s.get('kind') != 'model']
     nreg = len(specs)
     specs += [{'text': t, 'origin': name} for name, t in seeds]
-    n = int(os.environ.get('C03_N', 0)) or (300 if ctx.tier == 'quick' else 2500)
+    n = int(os.environ.get('C03_N', 0)) or (180 if ctx.tier == 'quick' else 2500)
     specs += [{'text': gen.gen_text(ctx.rng, seeds)} for _ in range(n)]
     if ctx.tier == 'thorough':
         # every single insertion of a layout character into two small streams (exhaustive over positions x characters)
@@ -610,7 +616,7 @@ def run(ctx):
                 kinds['(unknown records)'] = kinds.get('(unknown records)', 0) + 1
     # ---- model-level oracle
     mspecs = [s for s in reg if s.get('kind') == 'model'] + oracle.boundary_specs()
-    nm = int(os.environ.get('C03_NM', 0)) or (56 if ctx.tier == 'quick' else 450)
+    nm = int(os.environ.get('C03_NM', 0)) or (30 if ctx.tier == 'quick' else 450)
     mspecs += [oracle.gen_spec(ctx.rng) for _ in range(nm)]
     outs, kept, mverdicts, statuses = run_model_specs(ctx, mspecs, 'models')
     mstat = {}
